@@ -31,6 +31,8 @@ pub fn enter() {
         );
         let b = cstr(base.as_bytes());
         assert_eq!(libc::mount(b.as_ptr(), b.as_ptr(), std::ptr::null(), libc::MS_BIND, std::ptr::null()), 0, "bind jail: {}", errno());
+        // copy-up in the overlay stages data in a temporary file under the system temp directory
+        std::fs::create_dir_all(format!("{}/tmp", base)).unwrap();
         let p = format!("{}/proc", base);
         std::fs::create_dir_all(&p).unwrap();
         let pc = cstr(p.as_bytes());
